@@ -134,7 +134,7 @@ impl Property for Dispatch {
     }
     fn budget(&self, tier: Tier) -> Budget {
         Budget {
-            cases: tier.pick(250_000, 15_000_000),
+            cases: tier.pick(1_000_000, 15_000_000),
             tape_len: 2500,
         }
     }
